@@ -27,6 +27,7 @@ def sh(cmd, **kw):
 def main():
     prop, var, src = sys.argv[1], sys.argv[2], sys.argv[3]
     needs = ""
+    suffix = ""
     thorough_props = [prop]
     a = sys.argv[4:]
     i = 0
@@ -35,8 +36,10 @@ def main():
             needs = a[i + 1]; i += 1
         elif a[i] == "--thorough-props":
             thorough_props = a[i + 1].split(","); i += 1
+        elif a[i] == "--suffix":
+            suffix = a[i + 1]; i += 1
         i += 1
-    sid = f"{prop}{var}"
+    sid = f"{prop}{var}{suffix}"
     patch = os.path.join(src, f"{var}.patch")
     demo = os.path.join(src, f"{var}_demo.rs")
     assert os.path.exists(patch) and os.path.exists(demo), "missing patch or demo"
